@@ -379,6 +379,15 @@ def check_db(runs, db, type_registry=None, strict_values=True):
                 if n is None:
                     add("failed:node-missing", f"failed job {o.n} has no recorded call node ({str(h)[:8]})")
                     continue
+                if o.known_at_entry and h == o.known_at_entry:
+                    # a failed replay that adopted the recorded node of the same call
+                    E[jid] = h
+                    if (n["task_hash"], n["args_hash"]) != (o.task_hash, o.args_hash):
+                        add("replay:other-call", f"failed replayed job {o.n} adopted the node of another call")
+                    v = values.get(n["value_hash"])
+                    if v is None or v["type"] != "redun.ErrorValue":
+                        add("failed:result-not-error", f"failed job {o.n}: result value of its node is not an ErrorValue row")
+                    continue
                 want = call_hash(o.task_hash, o.args_hash, n["value_hash"], [x for _, x in ch])
                 if want != h or (n["task_hash"], n["args_hash"]) != (o.task_hash, o.args_hash):
                     add("hash:failed-job", f"failed job {o.n}: node {h[:8]} is not the hash of its task, arguments, error value "
